@@ -181,7 +181,7 @@ def main():
     for k in range(0, len(shapes), B):
         batch = shapes[k:k + B]
         chk.run('evaluator-vs-reference[%d..%d]' % (k, k + len(batch) - 1), prog, mk(batch, k),
-                bounds={'shapes': [show(s) for s in batch[:3]] + ['...']}, max_paths=200000, merge=MERGE)
+                bounds={'shapes': [show(s) for s in batch[:3]] + ['...']}, max_paths=200000, merge=MERGE, parallel=False)
 
     # boolean laws on the real evaluator: compare two ASTs built over the same symbolic leaves
     def law_harness(ex, ob):
@@ -242,7 +242,7 @@ def main():
         ob.verify(ex, 'total:' + names[law], And(e1 is None, e2 is None), d)
         ob.verify(ex, 'law:' + names[law], simp(zbool(r1) == zbool(r2)), d)
         ob.verify(ex, 'deterministic:' + names[law], simp(zbool(r1) == zbool(r3)), d)
-    chk.run('boolean-laws', prog, law_harness, bounds={'laws': 5, 'leaf kinds': 9}, merge=MERGE)
+    chk.run('boolean-laws', prog, law_harness, bounds={'laws': 5, 'leaf kinds': 9}, merge=MERGE, parallel=False)
     # routing: publish delivers to a filtered subscription iff the stored filter matches (the parser verdict / match predicate are
     # uninterpreted here and pinned to the real semantics on a two-filter vocabulary; the evaluator itself is decided above)
     import checks.transitions as tr
